@@ -230,6 +230,9 @@ func (c *core) stop() {
 type wlCase struct {
 	MaxChunk int     `json:"max_chunk"`
 	Batches  [][]dEv `json:"batches"`
+	// Faults[i], if set, is the environment fault during batch i: "cancel:<k>" (the Write's context is cancelled while record k
+	// is fetched) or "nonew" (no file descriptor left: no new chunk can be created)
+	Faults []string `json:"faults,omitempty"`
 }
 
 func posStr(ok bool, p journal.Pos, dense map[chunk.Id]int) string {
@@ -239,10 +242,50 @@ func posStr(ok bool, p journal.Pos, dense map[chunk.Id]int) string {
 	return fmt.Sprintf("%d:%d", dense[p.CId], p.Idx)
 }
 
+// hogDescriptors opens /dev/null until the process has no file descriptor left (EMFILE); release closes them again
+func hogDescriptors() (release func(), n int) {
+	var fs []*os.File
+	for len(fs) < 1<<20 {
+		f, err := os.Open("/dev/null")
+		if err != nil {
+			break
+		}
+		fs = append(fs, f)
+	}
+	return func() {
+		for _, f := range fs {
+			f.Close()
+		}
+	}, len(fs)
+}
+
+// cancelIt cancels the write's context when the record with index `at` is fetched
+type cancelIt struct {
+	litIt
+	at     int
+	cancel context.CancelFunc
+}
+
+func (m *cancelIt) Get(ctx context.Context) (model.LogEvent, tag.Line, error) {
+	if m.i == m.at {
+		m.cancel()
+	}
+	return m.litIt.Get(ctx)
+}
+
 func runWriteLoopCase(c wlCase, col *collector, sec *vh.Section) {
+	secName := sec.Name
+	// descriptor exhaustion fails wherever the process happens to need a descriptor (not only at chunk creation): those cases
+	// are checked against the SPEC only; the model comparison is for the deterministic fault (context cancelled at record k)
+	var skipModel func(string) bool
+	for _, f := range c.Faults {
+		if strings.HasPrefix(f, "nonew") {
+			skipModel = func(string) bool { return true }
+		}
+	}
 	co, err := startCore(c.MaxChunk)
 	if err != nil {
-		res.Note("writeloop: %v", err)
+		res.Note("%s: %v", secName, err)
 		return
 	}
 	defer reap(co.stop)
@@ -253,99 +296,86 @@ func runWriteLoopCase(c wlCase, col *collector, sec *vh.Section) {
 		err   error
 	}
 	raws := make([]raw, len(c.Batches))
+	faultOf := func(i int) (string, int) {
+		if i < len(c.Faults) && c.Faults[i] != "" {
+			f := strings.SplitN(c.Faults[i], ":", 2)
+			n := 0
+			if len(f) == 2 {
+				n, _ = strconv.Atoi(f[1])
+			}
+			return f[0], n
+		}
+		return "none", 0
+	}
 	for i, b := range c.Batches {
 		co.rec.take()
-		err := co.ps.Write(co.ctx, "p=1", &litIt{evs: modelEvs(b)}, false)
+		var err error
+		switch mode, at := faultOf(i); mode {
+		case "cancel":
+			// the context of this Write is cancelled while record `at` is fetched: every journal call that starts afterwards fails
+			ctx2, cancel := context.WithCancel(co.ctx)
+			err = co.ps.Write(ctx2, "p=1", &cancelIt{litIt: litIt{evs: modelEvs(b)}, at: at, cancel: cancel}, false)
+			cancel()
+		case "nonew":
+			// no file descriptor is left: a chunk that is open keeps accepting records, a new chunk cannot be created
+			reapWG.Wait() // earlier histories' servers are stopped and their directories removed before descriptors run out
+			release, n := hogDescriptors()
+			err = co.ps.Write(co.ctx, "p=1", &litIt{evs: modelEvs(b)}, false)
+			release()
+			res.Dist(sec, "descriptors exhausted")
+			_ = n
+		default:
+			err = co.ps.Write(co.ctx, "p=1", &litIt{evs: modelEvs(b)}, false)
+		}
 		r := raw{calls: co.rec.take(), err: err}
-		if len(b) > 0 {
+		if len(r.calls) > 0 {
 			c2, cn := context.WithTimeout(co.ctx, 300*time.Millisecond)
 			we, err2 := co.ps.GetWriteEvent(c2)
 			cn()
 			if err2 == nil {
 				r.we, r.gotWe = we, true
 			}
+		} else if len(b) > 0 && err == nil {
+			// acknowledged without any notification: look for an event anyway (short wait)
+			c2, cn := context.WithTimeout(co.ctx, 100*time.Millisecond)
+			if we, err2 := co.ps.GetWriteEvent(c2); err2 == nil {
+				r.we, r.gotWe = we, true
+			}
+			cn()
 		}
 		raws[i] = r
 	}
 	src, _, err := co.ti.GetOrCreateJournal("p=1")
 	if err != nil {
-		res.Note("writeloop: %v", err)
+		res.Note("%s: %v", secName, err)
 		return
 	}
 	defer co.ti.Release(src)
-	total := 0
-	for i, b := range c.Batches {
-		if raws[i].err == nil {
-			total += len(b)
+	// records announced by the notifications: what must become readable
+	announced := 0
+	for _, r := range raws {
+		for _, cl := range r.calls {
+			announced += int(cl.last-cl.first) + 1
 		}
 	}
-	waitConfirmed(co.ctx, co.jc, src, total) // counts below are confirmed counts
+	waitConfirmed(co.ctx, co.jc, src, announced) // counts below are confirmed counts
 	dense := map[chunk.Id]int{}
 	counts, err := layoutOf(co.ctx, co.jc, src, dense)
 	if err != nil {
-		res.Note("writeloop: %v", err)
+		res.Note("%s: %v", secName, err)
 		return
 	}
-	// positions of all records in stored order (SPEC side)
-	type pos struct{ c, i int }
-	var allPos []pos
-	for ci, n := range counts {
-		for i := 0; i < n; i++ {
-			allPos = append(allPos, pos{ci + 1, i})
-		}
-	}
-	col.add(chk{line: fmt.Sprintf("w.reset %d", c.MaxChunk), impl: "ok", fn: "reset", input: c})
-	before := 0
-	rollovers := 0
-	for i, b := range c.Batches {
-		r := raws[i]
-		e := "0"
-		if r.err != nil {
-			e = "1"
-		}
-		impl := showCalls(r.calls, dense) + " start=" + posStr(r.gotWe, r.we.StartPos, dense) + " end=" + posStr(r.gotWe, r.we.EndPos, dense) + " err=" + e
-		col.add(chk{line: "w.write 0 " + dEvLine(b), impl: impl, fn: "partition.Service.Write (OnWrite calls, WriteEvent positions)", input: c})
-		if len(r.calls) > 1 {
-			rollovers++
-		}
-		// SPEC: acknowledged => the notifications cover exactly the positions the batch's records occupy, in order; StartPos is
-		// the position of the first record, EndPos is one past the last one
-		if r.err == nil && before+len(b) <= len(allPos) {
-			var ann []pos
-			for _, cl := range r.calls {
-				for x := cl.first; x <= cl.last && cl.last != ^uint32(0); x++ {
-					ann = append(ann, pos{dense[cl.cid], int(x)})
-				}
-			}
-			want := allPos[before : before+len(b)]
-			okc := len(ann) == len(want)
-			for k := 0; okc && k < len(want); k++ {
-				okc = ann[k] == want[k]
-			}
-			if !okc {
-				res.SpecFail(vh.SpecFailure{Section: "writeloop", Kind: "index-notification-wrong", Input: c, Impl: fmt.Sprint(ann), Spec: fmt.Sprint(want),
-					What: fmt.Sprintf("batch %d: the OnWrite notifications do not cover exactly the positions of the batch's records", i)})
-			}
-			if len(b) > 0 {
-				f, l := want[0], want[len(want)-1]
-				ws, wend := fmt.Sprintf("%d:%d", f.c, f.i), fmt.Sprintf("%d:%d", l.c, l.i+1)
-				gs, ge := posStr(r.gotWe, r.we.StartPos, dense), posStr(r.gotWe, r.we.EndPos, dense)
-				if gs != ws || ge != wend {
-					res.SpecFail(vh.SpecFailure{Section: "writeloop", Kind: "write-event-position-wrong", Input: c, Impl: gs + " .. " + ge, Spec: ws + " .. " + wend,
-						What: fmt.Sprintf("batch %d: WriteEvent.StartPos/EndPos are not the first record's position / one past the last record's", i)})
-				}
-			}
-			before += len(b)
-		}
-	}
-	col.add(chk{line: "w.layout 0", impl: showInts(counts), fn: "journal.Write (chunk layout)", input: c})
 	// read back at the record level: journal iterator + LogEventIterator
 	j, _ := co.jc.GetOrCreate(co.ctx, src)
 	it := journal.NewJIterator(j)
 	lei := (&model.LogEventIterator{}).Wrap("", it)
 	var got []binEv
 	rdErr := ""
-	for len(got) <= before+10 {
+	all := 0
+	for _, b := range c.Batches {
+		all += len(b)
+	}
+	for len(got) <= all+10 {
 		le, _, err := lei.Get(co.ctx)
 		if err != nil {
 			if err.Error() != "EOF" {
@@ -358,26 +388,97 @@ func runWriteLoopCase(c wlCase, col *collector, sec *vh.Section) {
 	}
 	lei.Release()
 	it.Close()
+	// SPEC: the stored sequence is, batch by batch in order, the WHOLE batch if the Write returned nil, and a prefix of the batch
+	// if it returned an error; nothing else
+	stored := make([]int, len(c.Batches))
+	k := 0
+	specOK := rdErr == ""
+	for i, b := range c.Batches {
+		n := 0
+		for n < len(b) && k+n < len(got) && got[k+n] == (binEv{b[n].Ts, string(b[n].Msg), string(b[n].Fields)}) {
+			n++
+		}
+		if raws[i].err == nil && n < len(b) {
+			specOK = false
+			res.SpecFail(vh.SpecFailure{Section: secName, Kind: "acked-batch-incomplete", Input: c, Impl: fmt.Sprintf("batch %d: Write returned nil, %d of its %d events are stored", i, n, len(b)),
+				Spec: "every event of an acknowledged batch is read back", What: "a Write that returned no error left only a prefix of its batch in the partition"})
+		}
+		stored[i] = n
+		k += n
+	}
+	if k != len(got) || rdErr != "" {
+		specOK = false
+	}
+	positions := func() (p []struct{ c, i int }) {
+		for ci, n := range counts {
+			for i := 0; i < n; i++ {
+				p = append(p, struct{ c, i int }{ci + 1, i})
+			}
+		}
+		return
+	}()
+	col.add(chk{line: fmt.Sprintf("w.reset %d", c.MaxChunk), impl: "ok", fn: "reset", input: c})
+	before := 0
+	rollovers := 0
+	for i, b := range c.Batches {
+		r := raws[i]
+		e := "0"
+		if r.err != nil {
+			e = "1"
+		}
+		impl := showCalls(r.calls, dense) + " start=" + posStr(r.gotWe, r.we.StartPos, dense) + " end=" + posStr(r.gotWe, r.we.EndPos, dense) + " err=" + e
+		line := "w.write 0 " + dEvLine(b)
+		if mode, at := faultOf(i); mode != "none" {
+			line = fmt.Sprintf("w.writef 0 %s %d %s", mode, at, dEvLine(b))
+			res.Dist(sec, fmt.Sprintf("fault=%s returned-error=%v stored=%s", mode, r.err != nil, map[bool]string{true: "all", false: "prefix"}[stored[i] == len(b)]))
+		}
+		col.add(chk{line: line, impl: impl, fn: "partition.Service.Write (OnWrite calls, WriteEvent positions, returned error)", input: c, skip: skipModel})
+		if len(r.calls) > 1 {
+			rollovers++
+		}
+		// SPEC: the notifications cover exactly the positions the stored records of the batch occupy, in order; StartPos is
+		// the position of the first stored record, EndPos is one past the last one
+		if before+stored[i] <= len(positions) {
+			var ann []struct{ c, i int }
+			for _, cl := range r.calls {
+				for x := cl.first; x <= cl.last && cl.last != ^uint32(0); x++ {
+					ann = append(ann, struct{ c, i int }{dense[cl.cid], int(x)})
+				}
+			}
+			want := positions[before : before+stored[i]]
+			okc := len(ann) == len(want)
+			for k := 0; okc && k < len(want); k++ {
+				okc = ann[k] == want[k]
+			}
+			if !okc {
+				res.SpecFail(vh.SpecFailure{Section: secName, Kind: "index-notification-wrong", Input: c, Impl: fmt.Sprint(ann), Spec: fmt.Sprint(want),
+					What: fmt.Sprintf("batch %d: the OnWrite notifications do not cover exactly the positions of the batch's stored records", i)})
+			}
+			if stored[i] > 0 {
+				f, l := want[0], want[len(want)-1]
+				ws, wend := fmt.Sprintf("%d:%d", f.c, f.i), fmt.Sprintf("%d:%d", l.c, l.i+1)
+				gs, ge := posStr(r.gotWe, r.we.StartPos, dense), posStr(r.gotWe, r.we.EndPos, dense)
+				if gs != ws || ge != wend {
+					res.SpecFail(vh.SpecFailure{Section: secName, Kind: "write-event-position-wrong", Input: c, Impl: gs + " .. " + ge, Spec: ws + " .. " + wend,
+						What: fmt.Sprintf("batch %d: WriteEvent.StartPos/EndPos are not the first record's position / one past the last record's", i)})
+				}
+			}
+		}
+		before += stored[i]
+	}
+	col.add(chk{line: "w.layout 0", impl: showInts(counts), fn: "journal.Write (chunk layout)", input: c, skip: skipModel})
 	impl := "ok " + showEvs(got)
 	if rdErr != "" {
 		impl = "error " + rdErr
 	}
-	col.add(chk{line: fmt.Sprintf("w.read 0 %d", defaultMaxRec), impl: impl, fn: "read back (journal iterator + LogEventIterator)", input: c})
-	var want []binEv
-	for i, b := range c.Batches {
-		if raws[i].err == nil {
-			for _, e := range b {
-				want = append(want, binEv{e.Ts, string(e.Msg), string(e.Fields)})
-			}
-		}
-	}
-	if ws := "ok " + showEvs(want); ws != impl {
-		res.SpecFail(vh.SpecFailure{Section: "writeloop", Kind: "readback-differs", Input: c, Impl: clip(impl), Spec: clip(ws),
-			What: "the stored record sequence is not the concatenation of the acknowledged batches"})
+	col.add(chk{line: fmt.Sprintf("w.read 0 %d", defaultMaxRec), impl: impl, fn: "read back (journal iterator + LogEventIterator)", input: c, skip: skipModel})
+	if !specOK && (k != len(got) || rdErr != "") {
+		res.SpecFail(vh.SpecFailure{Section: secName, Kind: "readback-differs", Input: c, Impl: clip(impl), Spec: "batch by batch: the whole batch if acknowledged, a prefix if rejected",
+			What: "the stored record sequence is not the concatenation of the acknowledged batches (and prefixes of the rejected ones)"})
 	}
 	key := ""
 	if before > 0 {
-		key = fmt.Sprintf("%d/%v", c.MaxChunk, c.Batches)
+		key = fmt.Sprintf("%d/%v/%v", c.MaxChunk, c.Batches, c.Faults)
 	}
 	res.Eval(sec, key)
 	res.Dist(sec, fmt.Sprintf("maxChunk=%d", c.MaxChunk))
@@ -467,6 +568,59 @@ func sectionWriteLoop(rng *vh.Rng, corpus []wlCase) {
 		cases = append(cases, c)
 	}
 	runParallel(len(cases), 8, "writeloop", func(i int, col *collector) { runWriteLoopCase(cases[i], col, sec) })
+	res.Done(sec)
+}
+
+// sectionFaults: environment faults during a Write whose batch spans a chunk roll-over
+func sectionFaults(rng *vh.Rng, corpus []wlCase) {
+	sec := res.Section("faults", "system-correspondence",
+		"fault injection on the hand-wired partition.Service: a first batch creates the partition and leaves its chunk open, then a batch that spans one or more chunk roll-overs (MaxChunkSize {1 … 257}) is written while (a) the Write's context gets cancelled at the moment record k is fetched (k around every chunk boundary: the next journal call — the one that must create the next chunk — fails), or (b) the process has no file descriptor left (/dev/null opened until EMFILE, released right after the Write; these cases run one at a time). IMPL vs MODEL (serviceWriteF under the same fault pattern): returned error, every OnWrite call, WriteEvent, layout, read-back. SPEC: Write returned nil => every event of the batch is read back exactly once, in order; Write returned an error => a prefix of the batch is stored; notifications/positions delimit exactly what was stored. non-trivial = every case")
+	var cases []wlCase
+	for _, c := range corpus {
+		if len(c.Faults) > 0 {
+			cases = append(cases, c)
+		}
+	}
+	mk := func(maxChunk, msgLen, n1, n2 int, fault string) wlCase {
+		return wlCase{MaxChunk: maxChunk, Batches: [][]dEv{genRun(rng, n1, msgLen, 1000), genRun(rng, n2, msgLen, 2000), genRun(rng, 2, msgLen, 3000)}, Faults: []string{"", fault, ""}}
+	}
+	n := 14
+	if args.Thorough {
+		n = 120
+	}
+	for i := 0; i < n; i++ {
+		maxChunk := rng.PickI([]int{1, 30, 64, 100, 257})
+		msgLen := rng.PickI([]int{0, 1, 5, 20})
+		rs := 4 + 1 + 8 + 1 + msgLen
+		capc := (maxChunk + rs - 1) / rs
+		n1 := rng.Range(1, capc)
+		n2 := rng.PickI([]int{capc - n1 + 1, capc, capc + 1, 2*capc + 1, 3 * capc})
+		if n2 < 1 {
+			n2 = 1
+		}
+		// cancel around the chunk boundaries of batch 2 (the first boundary is after capc-n1 records)
+		k := rng.PickI([]int{0, capc - n1 - 1, capc - n1, capc - n1 + 1, 2*capc - n1, n2 - 1, n2})
+		if k < 0 {
+			k = 0
+		}
+		cases = append(cases, mk(maxChunk, msgLen, n1, n2, fmt.Sprintf("cancel:%d", k)))
+	}
+	runParallel(len(cases), 6, "faults", func(i int, col *collector) { runWriteLoopCase(cases[i], col, sec) })
+	// descriptor exhaustion: strictly one case at a time, nothing else running
+	var serial []wlCase
+	m := 3
+	if args.Thorough {
+		m = 12
+	}
+	for i := 0; i < m; i++ {
+		maxChunk := rng.PickI([]int{64, 100, 257})
+		msgLen := rng.PickI([]int{1, 5, 20})
+		rs := 4 + 1 + 8 + 1 + msgLen
+		capc := (maxChunk + rs - 1) / rs
+		n1 := rng.Range(1, capc)
+		serial = append(serial, mk(maxChunk, msgLen, n1, rng.PickI([]int{capc - n1, capc - n1 + 1, 2 * capc}), "nonew"))
+	}
+	runParallel(len(serial), 1, "faults", func(i int, col *collector) { runWriteLoopCase(serial[i], col, sec) })
 	res.Done(sec)
 }
 
